@@ -100,7 +100,7 @@ def gen_binding(rng):
             if any(p[1] == 'varkw' for p in params) and rng.random() < 0.4:
                 keys.append('other')
         else:
-            pool = list(range(0, len(posnames) + 3)) + posnames + kwnames + ['zzz']
+            pool = list(range(0, len(posnames) + 3)) + posnames + kwnames + ['zzz', -1, -2]        # (there is no "-1-th" parameter)
             keys = rng.sample(pool, rng.randrange(0, min(len(pool), 6) + 1))
         rng.shuffle(keys)
     dyn = {}
@@ -166,9 +166,9 @@ def binding_model(params, args):
         names.append(p[0])
     errors = set()
     for k in ints:
-        if k < len(pos):
+        if 0 <= k < len(pos):
             continue
-        if k >= len(names):
+        if k < 0 or k >= len(names):
             errors.add(ValueError)
         elif names[k] in by_name:
             errors.add(TypeError)
